@@ -3,7 +3,7 @@
 
     Mirrors
       u_initial_packet_spec.go   initialPN, planFor, tokenLength, getTokenStore, dummyTokenStore.Pop
-      u_transport.go             dial / doDial: connection ID lengths, initial packet number
+      u_transport.go             dial / doDial: spec validation, connection ID lengths, initial packet number
       u_connection.go            SetInitialPacketNumberLength(s) wiring, token pop
       internal/ackhandler/u_sent_packet_handler.go   PeekPacketNumber
       internal/wire/extended_header.go               GetLength (Initial)
@@ -70,6 +70,28 @@ Definition resolveToken (expl : option (option (list Z))) (ctl : Z) (prefix tail
             else conf
   end.
 
+(** InitialPacketSpec.validate (called by UTransport.dial): what is refused before anything
+    is sent.  [scid], [dcid]: SrcConnIDLength, DestConnIDLength; [maxPacket]: Config.InitialPacketSize. *)
+Definition firstPnLen (lens : list Z) (single ipn : Z) : Z :=
+  match lens with
+  | l :: _ => l
+  | [] => if negb (single =? 0) then single else lenForHeader (initialPN ipn) InvalidPacketNumber
+  end.
+
+Definition validPnLen (l : Z) : bool := (1 <=? l) && (l <=? 4).
+
+Definition validPlan (maxPacket : Z) (p : Z * Z) : bool :=
+  (0 <=? fst p) && ((snd p =? 0) || ((upMinInitialPacketSize <=? snd p) && (snd p <=? maxPacket))).
+
+Definition validateSpec (scid dcid ipn : Z) (lens : list Z) (single udpMin : Z) (plans : list (Z * Z)) (maxPacket : Z) : bool :=
+  (0 <=? scid) && (scid <=? upMaxConnIDLen)
+  && ((dcid =? 0) || ((upMinConnectionIDLenInitial <=? dcid) && (dcid <=? upMaxConnIDLen)))
+  && (ipn <=? two62 - 1)
+  && forallb validPnLen lens && (single <=? 4)
+  && (ipn <? 2 ^ (8 * firstPnLen lens single ipn))
+  && ((udpMin =? 0) || ((upMinInitialPacketSize <=? udpMin) && (udpMin <=? bufCap)))
+  && forallb (validPlan maxPacket) plans.
+
 (** ** u_transport.go: connection ID lengths.  [drawn]: the length GenerateConnectionIDForInitial
     drew (8..20) when the spec does not pin it. *)
 Definition dialScidLen (specScid : Z) : Z := if specScid =? 0 then 0 else specScid.
@@ -123,26 +145,53 @@ Inductive bkind :=
 | BPass                       (* nil or empty QUICFrames: the popped frames are re-emitted as they are *)
 | BPlain                      (* QUICFrameBuilder only: initialDatagramIdx never advances *)
 | BEx                         (* QUICFrameBuilderEx *)
-| BRandom (len minpad : Z)    (* *QUICRandomFrames: Ex + the PADDING reserve *)
+| BRandom (rfs : list (Z * Z * Z * Z))
+    (* *QUICRandomFrames (one entry) or *QUICMultiDatagramFrames (PerDatagram): per entry
+       (Length, MinPADDING, largest PING count, largest CRYPTO count) *)
 | BFlight.                    (* QUICFlightFrameBuilder *)
 
-Definition isEx (b : bkind) : bool :=
-  match b with BEx | BRandom _ _ => true | _ => false end.
+(** randomFramesForDatagram: the entry for datagram idx (last one repeats) *)
+Definition rfFor (rfs : list (Z * Z * Z * Z)) (idx : Z) : option (Z * Z * Z * Z) :=
+  match rfs with
+  | [] => None
+  | _ => let n := Z.of_nat (length rfs) in
+         let i := if idx <? 0 then 0 else idx in
+         Some (nth (Z.to_nat (if i >=? n then n - 1 else i)) rfs (0, 0, 0, 0))
+  end.
 
-(** ** PackCoalescedPacket: the Initial packet's size budget *)
-Definition initialBudget (hdr off maxSize : Z) (plan : Z * Z) (bk : bkind) : Z :=
-  let ims := maxSize - overhead in
+(** QUICRandomFrames.maxCryptoData: the CRYPTO bytes that can always be re-framed within
+    Length, leaving MinPADDING bytes, for every draw of the PING and CRYPTO counts *)
+Definition maxCryptoData (rf : Z * Z * Z * Z) (off : Z) : Z :=
+  let '(len, minpad, maxping, maxcrypto) := rf in
+  let perFrame := 1 + vlen (off + len) + vlen len in
+  Z.max (len - maxping - minpad - Z.max maxcrypto 1 * perFrame) 0.
+
+(** ** PackCoalescedPacket: the Initial packet's size budget.
+    [idx] = initialDatagramIdx.  A PacketSize below the maximum packet size caps the packet;
+    then CryptoLength pins the CRYPTO bytes, else a random builder gets what it can always
+    re-frame within its Length; each cap only when 0 < budget < the packet's maximum. *)
+Definition initialBudget (hdr off maxSize : Z) (plan : Z * Z) (bk : bkind) (idx : Z) : Z :=
+  let ps := snd plan in
+  let ims := (if (ps >? 0) && (ps <? maxSize) then ps else maxSize) - overhead in
   let cl := fst plan in
   if cl >? 0 then
     let b := hdr + (1 + vlen off + vlen cl + cl) in
     if (b >? 0) && (b <? ims) then b else ims
   else
     match bk with
-    | BRandom len minpad =>
-      if (len >? 0) && (minpad >=? 1) then
-        let b := hdr + len - paddingReserve in
-        if (b >? 0) && (b <? ims) then b else ims
-      else ims
+    | BRandom rfs =>
+      match rfFor rfs idx with
+      | Some rf =>
+        let '(len, minpad, _, _) := rf in
+        if (len >? 0) && (minpad >=? 1) then
+          let n := maxCryptoData rf off in
+          if n >? 0 then
+            let b := hdr + (1 + vlen off + vlen n + n) in
+            if (b >? 0) && (b <? ims) then b else ims
+          else ims
+        else ims
+      | None => ims
+      end
     | _ => ims
     end.
 
@@ -151,6 +200,8 @@ Definition initialBudget (hdr off maxSize : Z) (plan : Z * Z) (bk : bkind) : Z :
 Inductive appres :=
 | AppErr                                                  (* "does not fit the packet buffer" *)
 | AppOk (lengthField packetLen dgramLen : Z) (relPanic : bool).
+    (* relPanic: releasing the buffer panics -- never since the UDP-minimum padding is kept
+       inside the buffer; the harness still observes it *)
 
 Definition paddedLen (ps hdr plen : Z) : Z :=
   if ps >? 0 then
@@ -165,8 +216,9 @@ Definition appendInitial (plan : Z * Z) (hdr pnLen plen udpMin : Z) : appres :=
   let pl := hdr + plen' + overhead in
   if pl >? bufCap then AppErr
   else if ps =? 0 then
-    let mn := if udpMin =? 0 then dfltUDPMin else udpMin in
-    if pl <? mn then AppOk lf pl mn (mn >? bufCap)   (* append() beyond the pooled buffer: Release() panics *)
+    (* the padding stays inside the pooled buffer (minUDPSize = min(minUDPSize, cap)) *)
+    let mn := Z.min (if udpMin =? 0 then dfltUDPMin else udpMin) bufCap in
+    if pl <? mn then AppOk lf pl mn false
     else AppOk lf pl pl false
   else AppOk lf pl pl false.
 
@@ -190,7 +242,8 @@ Definition pnLenOf (c : cfg) (i : Z) : Z := peekPnLen (c_lens c) (c_single c) (p
 Definition hdrOf (c : cfg) (i : Z) : Z := hdrLen (c_dcid c) (c_scid c) (c_tokLen c) (pnLenOf c i).
 
 (** per-datagram path (every builder but a flight builder).
-    [i]: Initial packets sent so far; [idx]: uPacketPacker.initialDatagramIdx. *)
+    [i]: Initial packets sent so far; [idx]: uPacketPacker.initialDatagramIdx (equal to i
+    during the first flight; kept separate as in the code). *)
 Fixpoint flightLoop (fuel : nat) (c : cfg) (plens : list Z) (i idx off rem : Z) : list dgres :=
   match fuel with
   | O => []
@@ -198,7 +251,7 @@ Fixpoint flightLoop (fuel : nat) (c : cfg) (plens : list Z) (i idx off rem : Z) 
     let pnLen := pnLenOf c i in
     let hdr := hdrOf c i in
     let plan := planFor (c_plans c) idx in
-    let m := initialBudget hdr off (c_maxSize c) plan (c_bk c) - hdr in
+    let m := initialBudget hdr off (c_maxSize c) plan (c_bk c) idx - hdr in
     let '(frames, off', rem') := popLoop 4 off rem m in
     match frames with
     | [] => []                                   (* nothing to send: PackCoalescedPacket returns nil *)
@@ -207,7 +260,7 @@ Fixpoint flightLoop (fuel : nat) (c : cfg) (plens : list Z) (i idx off rem : Z) 
                   | BPass => framesLen frames
                   | _ => nth 0 plens (-1)
                   end in
-      let idx' := if isEx (c_bk c) then idx + 1 else idx in
+      let idx' := idx + 1 in       (* MarshalInitialPacketPayload: one datagram per call, every builder kind *)
       if plen <? 0 then [DGErr 2]
       else
         match appendInitial plan hdr pnLen plen (c_udpMin c) with
@@ -219,20 +272,27 @@ Fixpoint flightLoop (fuel : nat) (c : cfg) (plens : list Z) (i idx off rem : Z) 
     end
   end.
 
-(** initialFrameBudget / flightBudgets (the header is the one of the packet number peeked when
-    the flight is planned, i.e. of packet 0) *)
-Definition frameBudget (c : cfg) (size : Z) : Z := Z.max (size - hdrOf c 0 - overhead) 0.
+(** initialFrameBudget / flightBudgets: the header is the one datagram i's packet will have
+    (the entry of InitPacketNumberLengths PeekPacketNumber selects for it); without a list,
+    the one of the packet number peeked when the flight is planned *)
+Definition budgetHdr (c : cfg) (i : Z) : Z :=
+  match c_lens c with
+  | [] => hdrOf c 0
+  | _ => hdrOf c i
+  end.
+
+Definition frameBudget (c : cfg) (i size : Z) : Z := Z.max (size - budgetHdr c i - overhead) 0.
 
 Definition nBudgets (c : cfg) (cryptoLen : Z) : Z :=
   let n := Z.of_nat (length (c_plans c)) in
   if n =? 0 then
-    let b := frameBudget c (c_maxSize c) in
+    let b := frameBudget c 0 (c_maxSize c) in
     Z.max (if b >? 0 then (cryptoLen + b - 1) / b else 0) 1
   else n.
 
 Definition budgetAt (c : cfg) (i : Z) : Z :=
   let ps := snd (planFor (c_plans c) i) in
-  frameBudget c (if ps >? 0 then ps else c_maxSize c).
+  frameBudget c i (if ps >? 0 then ps else c_maxSize c).
 
 Fixpoint zseq (n : nat) (from : Z) : list Z :=
   match n with O => [] | S k => from :: zseq k (from + 1) end.
